@@ -181,7 +181,7 @@ TTx ==
                           \cup (IF SameTxDangling(r.ops) THEN {"edge_endpoint_deleted_same_tx"} ELSE {})
                           \cup (IF SameTxLabelOrder(r.ops) THEN {"label_rem_then_add_same_tx"} ELSE {})]
              /\ IF r.created = CreatedIds(g, r.ops) THEN TRUE
-                ELSE Emit(Finding("C32", "id-allocation", {}, ToString(r.created)))
+                ELSE Emit(Finding(IF alts # {} THEN "C08" ELSE "C32", "id-allocation", {}, ToString(r.created)))
         ELSE /\ g' = g
              /\ gh' = gh
              /\ IF faulted
@@ -262,6 +262,18 @@ TDump ==
 (* code, dumped, extended by one transaction, reopened and dumped again.    *)
 Matching(d) == {k \in 1..Len(hist) : Diff(hist[k], d) = {}}
 
+(* Issues of the follow-up (commit one more transaction, reopen) when the   *)
+(* recovered state is taken to be hist[k].                                  *)
+FuIssues(r, k) ==
+  LET want == ApplyTx(hist[k], r.fu.ops) IN
+  IF r.fu.res # "ok" THEN {<<"C01", "followup-commit-failed", {}, r.fu.res>>}
+  ELSE (IF Diff(want, r.fu.d1) = {} THEN {}
+        ELSE {<<"C02", "followup-mismatch", Diff(want, r.fu.d1), "">>})
+       \cup
+       (IF r.fu.reopen # "ok" THEN {<<"C01", "followup-reopen-failed", {}, r.fu.reopen>>}
+        ELSE IF Diff(want, r.fu.d2) = {} THEN {}
+        ELSE {<<"C01", "followup-lost", Diff(want, r.fu.d2), "">>})
+
 TCrash ==
   /\ IsEvent("crash")
   /\ LET r == Rec[l] IN
@@ -270,20 +282,12 @@ TCrash ==
      ELSE LET K == Matching(r.d) IN
           IF K = {}
           THEN Emit(Finding("C02", "not-a-prefix", Diff(hist[Len(hist)], r.d), ""))
-          ELSE LET k == Max(K)
-                   base == hist[k]
-                   want == ApplyTx(base, r.fu.ops)
+          ELSE LET Kgood == {k \in K : FuIssues(r, k) = {}}
+                   k == IF Kgood # {} THEN Max(Kgood) ELSE Max(K)
                IN
                /\ IF k >= preLen THEN TRUE
                   ELSE Emit(Finding("C01", "lost-acked", Diff(hist[preLen], r.d), ""))
-               /\ IF r.fu.res # "ok"
-                  THEN Emit(Finding("C01", "followup-commit-failed", {}, r.fu.res))
-                  ELSE /\ IF Diff(want, r.fu.d1) = {} THEN TRUE
-                          ELSE Emit(Finding("C02", "followup-mismatch", Diff(want, r.fu.d1), ""))
-                       /\ IF r.fu.reopen # "ok"
-                          THEN Emit(Finding("C01", "followup-reopen-failed", {}, r.fu.reopen))
-                          ELSE IF Diff(want, r.fu.d2) = {} THEN TRUE
-                               ELSE Emit(Finding("C01", "followup-lost", Diff(want, r.fu.d2), ""))
+               /\ \A i \in FuIssues(r, k) : Emit(Finding(i[1], i[2], i[3], i[4]))
   /\ UNCHANGED <<g, alts, hist, preLen, lastOp, faulted, gh>>
 
 Next ==
